@@ -132,3 +132,15 @@ class Run:
             self.pid, self.tier, self.states, self.transitions, self.traces, len(self.nontrivial),
             len(self.violations), len(self.known_hits), wall), flush=True)
         return 1 if self.violations else 0
+
+
+def pmap(fn, items, procs: int = 16, chunk: int = 64):
+    """Parallel map with forked workers (the library is imported once in the parent)."""
+    import multiprocessing as mp
+
+    items = list(items)
+    if len(items) < 2 * chunk or procs <= 1:
+        return [fn(x) for x in items]
+    ctx = mp.get_context("fork")
+    with ctx.Pool(procs) as pool:
+        return pool.map(fn, items, chunksize=chunk)
